@@ -44,7 +44,7 @@ class Rng:
 
 SEG_NAMES = ["boot", "main", "ovl_a", "ovl_b", "data1", "code2", "_under", "Seg9", "header", "assets"]
 SECTIONS = [".text", ".data", ".rodata", ".sdata", ".rdata", ".init", ".fini", ".ctor", "mysec", ".data2",
-            ".sbss", ".scommon", ".bss", "COMMON", ".rodata.cst8", ".text.hot", "Xsec", ".ovl"]
+            ".sbss", ".scommon", ".bss", "COMMON", ".rodata.cst8", ".text.hot", "Xsec", ".ovl", "rodata", ".data.rel.ro"]
 OPT_KEYS = ["version", "compiler", "region", "debug"]
 OPT_VALS = ["us", "jp", "eu", "gcc", "ido", "on", "off"]
 DIRS = ["src", "asm", "lib", "build", "{version}", "{compiler}", "a{version}b", "{version}{region}",
@@ -86,6 +86,8 @@ class Profile:
         self.wellformed = True       # C01 well-formedness of section tables
         self.dpath = 0.4
         self.header = 0.5
+        self.p_no_settings = 0.06    # the document has no `settings` key at all (Settings::default())
+        self.p_foreign_align_keys = 0.3  # alignment maps may name sections that only another level lists
         self.__dict__.update(kw)
 
 
@@ -265,6 +267,10 @@ def gen_doc(r, prof, opts=None):
     for f in ["sections_start_alignment", "sections_end_alignment"]:
         if r.chance(prof.p_align * 0.6):
             settings[f] = {s: pow2(r, 0, 8) for s in r.sample(g_alloc + g_noload, 1 + r.below(2))} if (g_alloc + g_noload) else {}
+            if r.chance(prof.p_foreign_align_keys):
+                # entries for sections the global lists do not have: a segment may still list them and inherit the entry
+                for s in r.sample(SECTIONS, 1 + r.below(3)):
+                    settings[f].setdefault(s, pow2(r, 1, 9))
     hard_gp = False
     if r.chance(prof.p_gp * 0.5):
         settings["hardcoded_gp_value"] = r.pick([0x80008000, 0x10, 0])
@@ -374,7 +380,7 @@ def gen_doc(r, prof, opts=None):
             seg["keep_sections"] = gen_keep(r, listed + subsecs)
         segments.append(seg)
     doc["segments"] = segments
-    if settings or r.chance(0.2):
+    if (settings or r.chance(0.2)) and not (not single and not partial and r.chance(prof.p_no_settings)):
         doc["settings"] = settings
     if r.chance(prof.p_toplevel):
         doc["entry"] = r.pick(SYMS)
